@@ -316,7 +316,7 @@ def workflow_stage(ctx: Ctx):
         if wf is None:
             continue
         ref = C09.reference_run(wf, {tuple(k): v for k, v in case.get("initial_items", [])})
-        if ref is None:
+        if not isinstance(ref, list):      # None: not quiescent; str: the fault-free pass escaped (C09's subject)
             continue
         plans = [(p, {}, {}) for p in range(len(ref))]
         if fixed_plans is not None:
